@@ -82,6 +82,17 @@ def oracle_c04(solver, ok, requested):
                 work.append(m)
     extra = sorted(set(vals) - closure)
     missing = sorted(closure - set(vals))
+    # (3) the RETURNED solution (Solver.solution(), what is written out) carries exactly the same lines and forms
+    try:
+        sol = solver.solution()
+        returned = {f'{sec}.{key}' for sec in sol.sections() for key in sol[sec]}
+        want = {n.split('.', 1)[0] + '.' + n.split('.', 1)[1].lower() for n in vals}     # configparser lower-cases options
+        for n in sorted(want - returned)[:4]:
+            probs.append(f'line {n} has a value but is absent from the returned solution')
+        for n in sorted(returned - want)[:4]:
+            probs.append(f'the returned solution contains {n}, which the solve did not produce')
+    except Exception as e:  # noqa: BLE001
+        probs.append(f'Solver.solution() raised {type(e).__name__}: {str(e)[:80]}')
     if extra:
         probs.append(f'solution holds lines nobody demanded: {extra[:6]}')
     if missing:
